@@ -383,7 +383,9 @@ func (h *H) Run(cc core.Cfg, sim *simrt.Sim) *core.Outcome {
 			}
 			b.Append(cfg.Topics[rc.Topic], rc.Part, mk(rc))
 		}
-		deadline := simrt.SimNow() + cfg.Sim.QuietAt + 60*time.Second
+		// with a pool smaller than the batch size every batch waits for the flush time-out: allow for one flush per
+		// record, twice (everything may be delivered again after a restart)
+		deadline := simrt.SimNow() + cfg.Sim.QuietAt + 60*time.Second + time.Duration(2*len(cfg.Recs))*(cfg.Sink.Flush+cfg.Sink.MaxLatency+100*time.Millisecond)
 		for simrt.SimNow() < deadline && !(r.allFinished() && restartsDone) {
 			simrt.Sleep(200 * time.Millisecond)
 		}
